@@ -2285,3 +2285,41 @@ fn transfer_tcp(listener: TcpListener, current: ServerConfig<SslConfig>) {
         Trojan => tmpl__transfer_tcp(listener, current, |c| Ok(c.password.clone()), trojantcp__new_codec),
     }
 }
+
+//@@ octo-squirrel-client/src/client/template.rs:99-134  fn try_transfer_tcp  sha=b59c4e834d63662b
+fn try_transfer_tcp<Context, NewCodec, Codec>(
+    inbound: TcpStream,
+    peer_addr: &Address,
+    config: &ServerConfig<SslConfig>,
+    context: Context,
+    new_codec: NewCodec,Tracked(vlog): Tracked<&mut TransportLog>
+) -> Result<relay__Result>
+where
+    NewCodec: FnOnce(&Address, Context) -> Result<Codec>,
+    Codec: Encoder<BytesMut, Error = anyhow::Error> + Decoder<Item = BytesMut, Error = anyhow::Error> + Send + 'static + Unpin,
+{
+    let local_client = Framed::new(inbound, BytesCodec);
+    let codec = new_codec(peer_addr, context)?;
+    Ok(match (&config.ssl, &config.ws, &config.quic) {
+        (None, None, None) => {
+            let client_server = new_plain_outbound(&config.host, config.port, codec, Tracked(vlog))?;
+            relay_tcp(local_client, client_server, Tracked(vlog))
+        }
+        (_, _, Some(quic_config)) => {
+            let client_server = new_quic_outbound(&config.host, config.port, codec, quic_config, Tracked(vlog))?;
+            relay_tcp(local_client, client_server, Tracked(vlog))
+        }
+        (None, Some(ws_config), None) => {
+            let client_server = new_ws_outbound(&config.host, config.port, codec, ws_config, Tracked(vlog))?;
+            relay_tcp(local_client, client_server, Tracked(vlog))
+        }
+        (Some(ssl_config), None, None) => {
+            let client_server = new_tls_outbound(&config.host, config.port, codec, ssl_config, Tracked(vlog))?;
+            relay_tcp(local_client, client_server, Tracked(vlog))
+        }
+        (Some(ssl_config), Some(ws_config), None) => {
+            let client_server = new_wss_outbound(&config.host, config.port, codec, ssl_config, ws_config, Tracked(vlog))?;
+            relay_tcp(local_client, client_server, Tracked(vlog))
+        }
+    })
+}
